@@ -75,7 +75,7 @@ TEXT.update({
                     '(all converter inputs; all layouts satisfying layout_ok, all mapper states satisfying the invariant, all events); convert ensures r is Ok ==> layout_ok(r); a verified client feeds the result '
                     'of convert to the universal mapper client for every operation sequence. The JSON front end: the 36 parse_* functions of layout_parsing_formatting.rs are verified for the same implicit obligations (every unwrap, slice range, index, subtraction; has_at_least_keys ensures the members the unwraps rely on) '
                     'against assumed declarations of serde_json (Value / Map / Number: get is Some exactly when contains_key), an assumed contract of has_exactly_keys and five functions represented by their signatures only (format_mapping, mapping_all_used_aliases, keys_string, parse_row, parse_key_code); '
-                    'serde_json\'s text parser and the file I/O are outside. Bounded, never counted as proof: 250,000 (quick) seeded inputs through the whole real load path, mapper and loop on every run (extra loader_fuzz_bounded).'),
+                    'serde_json\'s text parser and the file I/O are outside. Bounded, never counted as proof: 250,000 (quick) seeded inputs through the whole real load path, mapper and loop on every run (extra loader_fuzz_bounded); the assumed contract of has_exactly_keys is compared with the real function on every object over five member names and every list of at most three names (extra hek_bounded).'),
         design_ref='6.14', level_note=CONV_NOTE + ' ' + MAPPER_NOTE),
     'C13': dict(
         technique='deductive verification (Verus): functional contracts on the converter (convert_row_to, find_right_shift, from_modifiers, reify_modifiers, build_combinations, the combination iterators, convert_single, convert_row, convert_alias, convert_mapping, FromSet::new, adjust_repeats, convert) on the real code, against statement-level spec functions; the two tables by complete enumeration',
